@@ -35,10 +35,10 @@ const (
 )
 
 var (
-	sdbAddrs [nAddr][20]byte
-	sdbSlots [nSlot][32]byte
-	slotVals = [2][32]byte{{}, {31: 7}} // value index 0 = zero, 1 = 7
-	theCode  = []byte{0x60, 0x00, 0x56}
+	sdbAddrs      [nAddr][20]byte
+	sdbSlots      [nSlot][32]byte
+	slotVals      = [2][32]byte{{}, {31: 7}} // value index 0 = zero, 1 = 7
+	theCode       = []byte{0x60, 0x00, 0x56}
 	emptyCodeHash [32]byte
 	theCodeHash   [32]byte
 )
@@ -166,6 +166,14 @@ type mState struct {
 	// nodes).  Not observable through getters; part of the canonical key so that
 	// "finalised in place" and "committed and reopened" are explored separately.
 	IR bool
+	// Touched[a]: some call addressed account a in the current transaction
+	// (since the last finalisation) and has not been reverted.  Separates "same
+	// content, still pending in the journal" from "same content, finalised".
+	Touched [nAddr]bool
+	// Base: the account content as of the last finalisation (what the state
+	// trie holds underneath the pending changes).
+	BaseLive [nAddr]bool
+	Base     [nAddr]mAcct
 }
 
 // sModel: current state + stack of copies taken at Snapshot (arrays only, so
@@ -210,7 +218,9 @@ func (m *sModel) finalise() (deleted int) {
 		}
 		ac.Comm = ac.Stor
 	}
+	m.cur.BaseLive, m.cur.Base = m.cur.Live, m.cur.A
 	m.cur.Recreated = [nAddr]bool{}
+	m.cur.Touched = [nAddr]bool{}
 	m.cur.Refund = 0
 	m.snaps = nil
 	return
@@ -226,6 +236,12 @@ func (m *sModel) inputClass() string {
 
 // apply returns the effect class of the op.
 func (m *sModel) apply(o sOp) string {
+	switch o.Op {
+	case "AddBalance", "SubBalance", "SetNonce", "SetCode", "SetState", "CreateAccount":
+		m.cur.Touched[o.A] = true
+	case "Suicide":
+		m.cur.Touched[o.A] = m.cur.Touched[o.A] || m.cur.Live[o.A]
+	}
 	switch o.Op {
 	case "AddBalance":
 		was := m.cur.Live[o.A]
@@ -311,12 +327,35 @@ func (m *sModel) apply(o sOp) string {
 }
 
 func encState(b *bytes.Buffer, s *mState) {
+	encAccts(b, &s.Live, &s.A)
+	encAccts(b, &s.BaseLive, &s.Base)
+	b.WriteByte(byte(s.Refund))
+	b.WriteByte(byte(s.Logs))
+	f := byte(0)
 	for a := 0; a < nAddr; a++ {
-		if !s.Live[a] {
+		if s.Recreated[a] {
+			f |= 1 << uint(a)
+		}
+		if s.Touched[a] {
+			f |= 4 << uint(a)
+		}
+	}
+	if s.Stale {
+		f |= 0x80
+	}
+	if s.IR {
+		f |= 0x40
+	}
+	b.WriteByte(f)
+}
+
+func encAccts(b *bytes.Buffer, live *[nAddr]bool, accts *[nAddr]mAcct) {
+	for a := 0; a < nAddr; a++ {
+		if !live[a] {
 			b.WriteByte(0xff)
 			continue
 		}
-		ac := &s.A[a]
+		ac := &accts[a]
 		f := byte(0)
 		if ac.Code {
 			f |= 1
@@ -331,21 +370,6 @@ func encState(b *bytes.Buffer, s *mState) {
 			b.WriteByte(byte(ac.Stor[i]<<4 | ac.Comm[i]))
 		}
 	}
-	b.WriteByte(byte(s.Refund))
-	b.WriteByte(byte(s.Logs))
-	f := byte(0)
-	for a := 0; a < nAddr; a++ {
-		if s.Recreated[a] {
-			f |= 1 << uint(a)
-		}
-	}
-	if s.Stale {
-		f |= 0x80
-	}
-	if s.IR {
-		f |= 0x40
-	}
-	b.WriteByte(f)
 }
 
 type skey [12]byte
@@ -353,8 +377,10 @@ type skey [12]byte
 // key: canonical key of a StateDB state = everything the exported getters can
 // observe now (accounts, storage, committed storage, suicide flags, refund,
 // logs) plus the same for every live snapshot, i.e. everything they can observe
-// after any sequence of reverts, plus three bits of history shape that getters
-// cannot see (Recreated, Stale, IR — see mState).
+// after any sequence of reverts, plus history shape that getters cannot see
+// (Base, Recreated, Stale, IR, Touched — see mState): pending-in-journal versus
+// finalised versus committed-and-reopened states, and equal pending content
+// over different finalised content, are explored separately.
 func (m *sModel) key() skey {
 	var b bytes.Buffer
 	encState(&b, &m.cur)
@@ -738,6 +764,11 @@ func runSDB(ops []sOp) (res sdbRes) {
 		if getter != "" {
 			sig["getter"] = getter
 		}
+		if m.inputClass() != "plain" {
+			// one input class with one cause: every symptom (stale root, stale
+			// content after reopen, getters after reopen) is the same class
+			sig = map[string]string{"part": "statedb", "input": m.inputClass()}
+		}
 		res.viols = append(res.viols, viol{sig: sig, detail: fmt.Sprintf("[statedb] after %q: ", sHistString(ops)) + fmt.Sprintf(format, a...)})
 	}
 	panicked, pv, stack := core.Try(func() {
@@ -765,17 +796,25 @@ func runSDB(ops []sOp) (res sdbRes) {
 			}
 			if isLast && has {
 				res.hasRoot, res.root, res.ckey = true, r1, m.contentKey()
-				if r1 != r2 {
+				// The content-derived root (reference trie + RLP over the model's
+				// content) is the authority; the reference StateDB is a second
+				// witness wherever it agrees with it (it shares the CreateAccount
+				// defect recorded in known_findings.txt, so on those histories it
+				// is not a witness for anything).
+				rr := m.refRoot()
+				if r2 == rr && r1 != r2 {
 					bad("root-differs-from-reference", "", "%s root %x, reference StateDB driven by the same history %x", o.Op, r1[:6], r2[:6])
 				}
-				if rr := m.refRoot(); r1 != rr {
+				if r1 != rr {
 					bad("root-not-function-of-content", "", "%s root %x, root of the same account/storage content built directly with the reference trie %x (reference StateDB: %x)", o.Op, r1[:6], rr[:6], r2[:6])
 				}
 			}
 		}
 		got, ref, want := in.obs(), up.obs(), m.obs()
-		if g, d := got.diff(ref); g != "" {
-			bad("getter-differs-from-reference", g, "in-tree vs reference StateDB: %s", d)
+		if rg, _ := ref.diff(want); rg == "" {
+			if g, d := got.diff(ref); g != "" {
+				bad("getter-differs-from-reference", g, "in-tree vs reference StateDB: %s", d)
+			}
 		}
 		if g, d := got.diff(want); g != "" {
 			kind := "getter-differs-from-model"
